@@ -64,7 +64,12 @@ func (gj *groupJob[T]) Close() error {
 	}
 
 	gj.ack()
-	gj.changeStatus(closed)
+
+	// the dispatcher may be starting the job, or another caller closing it, at this very moment
+	if err := gj.markClosed(); err != nil {
+		return err
+	}
+
 	gj.wgc.Done()
 
 	return nil
@@ -135,7 +140,12 @@ func (gj *resultGroupJob[T, R]) Close() error {
 	}
 
 	gj.ack()
-	gj.changeStatus(closed)
+
+	// the dispatcher may be starting the job, or another caller closing it, at this very moment
+	if err := gj.markClosed(); err != nil {
+		return err
+	}
+
 	// only the job that takes the counter to zero closes the shared channel
 	if gj.wgc.Done() {
 		gj.Response.Close()
@@ -212,7 +222,12 @@ func (gj *errorGroupJob[T]) Close() error {
 	}
 
 	gj.ack()
-	gj.changeStatus(closed)
+
+	// the dispatcher may be starting the job, or another caller closing it, at this very moment
+	if err := gj.markClosed(); err != nil {
+		return err
+	}
+
 	// only the job that takes the counter to zero closes the shared channel
 	if gj.wgc.Done() {
 		gj.Response.Close()
